@@ -61,10 +61,18 @@ func c09Run(cs c09Case, concurrent bool) ([]c09Obs, string, string) {
 		}
 	}
 	var wg sync.WaitGroup
+	var scratch []byte
 	for i, op := range cs.Ops {
 		var o c09Obs
 		if op.Set {
-			c.SetSegment(op.Topic, op.Part, op.Base, op.Data)
+			// the writer hands SetSegment a scratch buffer it keeps using afterwards (a pooled
+			// buffer): the cache must hold its own copy, so scribbling on the buffer after the
+			// call must not change what later lookups (or earlier hand-outs) see
+			scratch = append(scratch[:0], op.Data...)
+			c.SetSegment(op.Topic, op.Part, op.Base, scratch)
+			for k := range scratch {
+				scratch[k] ^= 0xA5
+			}
 			ref[c09Key{op.Topic, op.Part, op.Base}] = append([]byte(nil), op.Data...)
 		} else {
 			d, ok := c.GetSegment(op.Topic, op.Part, op.Base)
